@@ -22,7 +22,7 @@ SPEC = {
               {"name": "flag_g", "src": ["c04_main.cpp", "c04_default.cpp", "c04_stable.cpp", "c04_fastp.cpp", "c04_full.cpp", "c04_fastcof.cpp"],
                "variant": "gasan", "tiers": ["thorough"], "configs": {k: {"thorough": 5000} for k in _CFG}, "chunk": 50}],
     "floors": {"quick": {"graph.clique_number_4plus": 500, "blockers.blocked_and_higher_survives": 300, "cmp.added_simplices": 10000,
-                         "cmp.incremental_after_monotonisation": 500, "cmp.rips_matrix": 400, "cmp.rips_points": 400, "_distinct_nontrivial": 2000}},
+                         "cmp.incremental_after_monotonisation": 500, "hist.one_shot_prefix_has_triangles_or_more": 300, "cmp.rips_matrix": 400, "cmp.rips_points": 400, "_distinct_nontrivial": 2000}},
     "manifest": {
         "text": "Runtime monitor under ASan+UBSan: every construction route of the flag complex (one-shot, blocker-driven, incremental in two orders, Rips builders) "
                 "is run on thousands of random small weighted graphs and compared, simplex set and values, with a brute-force clique enumeration; "
